@@ -304,7 +304,7 @@ func (r *Run) opBearerAssert(st Step) {
 	if res.Crashed || r.anyFault() {
 		return
 	}
-	if !authValid(cs, st.A) && !r.W.K.JWTBearerSkipClientAuth {
+	if !r.authOK(cs, st.A) && !r.W.K.JWTBearerSkipClientAuth {
 		if tokens {
 			r.violate("C10", "tokens-without-client-auth", "jwt_bearer", "jwt-bearer grant honoured without valid client authentication")
 		}
